@@ -227,6 +227,19 @@ def search_representation(seed, n):
                         found[r["match"]] = r
                         break
         gA, gB = G.rebuild(desc), G.rebuild(d2)
+        if variant in ("perm_vertices", "perm_edges", "relabel") and rng.random() < 0.5:
+            # the second representation re-uses edge *objects* that already served another Graph (since optimised) and pairs
+            # them with fresh Vertex objects: same lists, same numbers, so the same graph
+            from graphslam.graph import Graph as _Graph
+            from graphslam.vertex import Vertex as _Vertex
+
+            try:
+                quiet_optimize(gB, tol=0.0, max_iter=2, fix_first_pose=False)
+            except Exception:  # noqa
+                pass
+            vs = [_Vertex(v["id"], G.mk_pose(v["cls"], v["vals"]), fixed=bool(v["fixed"])) for v in d2["vertices"]]
+            gB = _Graph(list(gB._edges), vs)
+            variant = variant + "+reused_edge_objects"
         mapB = {}
         byid = {v.id: v for v in gB._vertices}
         for v in gA._vertices:
